@@ -284,7 +284,7 @@ static size_t iso(struct IsoArg* a, char* out, size_t cap) {
   pid_t p = fork();
   if (p < 0) { bug("fork"); }
   if (p is 0) {
-    close(fd[0]); alarm(40);
+    close(fd[0]); alarm(20);
     char* buf = malloc(cap);
     size_t n = iso_body(a, buf, cap);
     size_t w = 0;
@@ -747,7 +747,7 @@ int main(int argc, char** argv) {
     pid_t p = fork();
     if (p < 0) { bug("fork"); }
     if (p is 0) {
-      alarm(50); in_child = true;
+      alarm(25); in_child = true;
       case_child(lines, nlines);
       fflush(stdout);
       _exit(0);
